@@ -726,4 +726,4 @@ J(name="c17.iterStepPolygonCompact", props=["C17", "C15"], harness="c17b.c", ent
          dict(fn="nextCell", loop=0, locals=["res", "cell"], assigns="res, cell",
               inv="0 <= res && res <= 15 && res == S_RES(cell) && res <= __CPROVER_loop_entry(res)", dec="res")])
 
-J(name="c19.pentagons.enum", props=["C19"], harness="c19.c", entry="h_pentagon_faces_enum", unwind=20, timeout=1800)
+J(name="c19.pentagons.enum", props=["C19"], harness="c19.c", entry="h_pentagon_faces_enum", unwind=20, timeout=1800, tier="never")  # concrete enumeration still > 30 min
